@@ -366,7 +366,27 @@ type Case struct {
 // "inv-credit-preceding": a credit note (issue_date = Date) whose preceding
 // document was issued on the Decoy date: the tax date is still the credit
 // note's own issue date
-var vias = []string{"value", "inv-issue", "inv-issue-op", "inv-value", "inv-credit-preceding"}
+// "inv-foreign-east" / "inv-foreign-west": an invoice of another regime, east
+// (AE, or IN for AE itself) or west (MX, or CO for MX itself) of most others,
+// whose combos name this regime's country: the tax date is the same calendar day
+var vias = []string{"value", "inv-issue", "inv-issue-op", "inv-value", "inv-credit-preceding", "inv-foreign-east", "inv-foreign-west"}
+
+// issuerFor gives the country and currency of the issuing regime of a foreign route.
+func issuerFor(via, own string) (string, string) {
+	switch via {
+	case "inv-foreign-east":
+		if own == "AE" {
+			return "IN", "INR"
+		}
+		return "AE", "AED"
+	case "inv-foreign-west":
+		if own == "MX" {
+			return "CO", "COP"
+		}
+		return "MX", "MXN"
+	}
+	return "", ""
+}
 
 const irrelevantTag = "simplified"
 
@@ -641,6 +661,10 @@ func invoiceJSON(rr rateRef, c Case) []byte {
 	if len(c.Ext) > 0 {
 		combo["ext"] = c.Ext
 	}
+	issuer, issuerCur := issuerFor(c.Via, rr.reg.Country)
+	if issuer != "" {
+		combo["country"] = rr.reg.Country
+	}
 	if c.Stale {
 		combo["percent"] = stalePercent
 		combo["surcharge"] = staleSurcharge
@@ -676,6 +700,9 @@ func invoiceJSON(rr rateRef, c Case) []byte {
 		if len(ext) > 0 {
 			sib["ext"] = ext
 		}
+		if issuer != "" {
+			sib["country"] = rr.reg.Country
+		}
 		row := map[string]any{"quantity": "2", "item": map[string]any{"name": "Sibling", "price": "10.00"}, "taxes": []any{sib}}
 		if len(lines)%2 == 1 {
 			charges = append(charges, map[string]any{"reason": "sibling", "amount": "1.00", "taxes": []any{sib}})
@@ -695,7 +722,14 @@ func invoiceJSON(rr rateRef, c Case) []byte {
 	if len(c.Tags) > 0 {
 		doc["$tags"] = c.Tags
 	}
+	if issuer != "" {
+		doc["$regime"] = issuer
+		doc["currency"] = issuerCur
+		doc["supplier"] = map[string]any{"name": "Supplier", "tax_id": map[string]any{"country": issuer}}
+	}
 	switch c.Via {
+	case "inv-foreign-east", "inv-foreign-west":
+		doc["issue_date"] = c.Date
 	case "inv-issue":
 		doc["issue_date"] = c.Date
 	case "inv-issue-op":
@@ -810,7 +844,7 @@ func judge(c Case, o *vh.Obs) {
 		return
 	}
 	invoice := c.Via != "value"
-	if invoice && c.Via != "inv-issue" {
+	if invoice && c.Via != "inv-issue" && !strings.HasPrefix(c.Via, "inv-foreign") {
 		if _, ok := parseDay(c.Decoy); !ok {
 			o.Discard()
 			return
@@ -1166,7 +1200,7 @@ func judgeUnpublished(c TableCase, o *vh.Obs) {
 func init() {
 	vh.Describe(
 		"Oracle = published tables data/regimes/*.json only: applicable values are those whose tags intersect the document tags (when tagged) and whose ext is contained in the combo's ext (when qualified); the answer is the applicable value with the greatest since <= tax date (undated = minus infinity, a value is in force ON its start date); none => nil / calculation error; exempt key => no percentage; equal start dates: a qualified value beats an unqualified one (class tie:qualified-beats-unqualified, own signature), other ties with different percentages only assert membership. "+
-			"Observed through tax.RateDef.Value on the registered regime and through the last line of an invoice built as JSON (preceded by sibling lines and charges with the same category and rate key and every other extension set the rate publishes, and none), parsed by gobl.Parse and calculated, with the tax date as issue_date, as issue_date next to a decoy op_date, as value_date overriding a decoy issue_date, and as the issue_date of a credit note whose preceding document carries a decoy issue date; half of the invoice cases carry a stale input percent/surcharge that must be replaced. "+
+			"Observed through tax.RateDef.Value on the registered regime and through the last line of an invoice built as JSON (preceded by sibling lines and charges with the same category and rate key and every other extension set the rate publishes, and none), parsed by gobl.Parse and calculated, with the tax date as issue_date, as issue_date next to a decoy op_date, as value_date overriding a decoy issue_date, as the issue_date of a credit note whose preceding document carries a decoy issue date, and as the issue_date of an invoice of another regime far to the east (AE / IN) or west (MX / CO) whose combos name this regime's country; half of the invoice cases carry a stale input percent/surcharge that must be replaced. "+
 			"boundaries (exhaustive): every published regime file x category x rate key x {since-1, since, since+1 of every value} + {0001-01-01, "+today+", 9999-12-31} x ext variants (none, each qualifier exactly / plus an unrelated pair / value altered, unrelated only) x tag variants (none, unrelated, each table tag) x 4 observation routes. random: arbitrary dates 0001..9999 (40% within 3 or 400 days of a start date, 40% 1985-2035, 20% anywhere), same variants, random decoys. tables: per published rate, strictly descending start dates with the undated value last among unqualified values and inside each identically-qualified group, and the registered Go table equal to the published one value by value; unpublished: every registered rate exists in the published files. "+
 			"Non-trivial: the date is within one day of a published start date, or before the first applicable value, or a qualified value competes with an applicable unqualified one (tables: more than one value).",
 		"data/regimes/*.json in the tree under test are the referee; the Go tables are only ever observed",
